@@ -773,6 +773,7 @@ rfbPeekExactTimeout(rfbClientPtr cl, char* buf, int len, int timeout)
 #endif
     rfbSocket sock = cl->sock;
     int n;
+    int waitedForRest = 0; /* ms spent waiting for the rest of a partly arrived message */
     fd_set fds;
     struct timeval tv;
 
@@ -795,6 +796,25 @@ rfbPeekExactTimeout(rfbClientPtr cl, char* buf, int len, int timeout)
         } else if (n == 0) {
 
             return 0;
+
+        } else if (n > 0) {
+
+            /* Only a part of the requested bytes has arrived so far.  errno
+               has not been set by this call, and select() would return at
+               once because the socket is readable: wait for the rest in
+               small steps, bounded by the timeout. */
+            if (waitedForRest >= timeout) {
+                errno = ETIMEDOUT;
+                return -1;
+            }
+#ifdef WIN32
+            Sleep(10);
+#else
+            tv.tv_sec = 0;
+            tv.tv_usec = 10000;
+            select(0, NULL, NULL, NULL, &tv);
+#endif
+            waitedForRest += 10;
 
         } else {
 #ifdef WIN32
